@@ -512,6 +512,19 @@ pub broadcast proof fn lemma_or_low5(a: u8, c: u8)
 pub broadcast proof fn lemma_and_msb(b: u8)
     ensures ((#[trigger] (b & 0x80u8)) == 0) <==> b < 128
 { assert(((b & 0x80u8) == 0u8) <==> b < 128u8) by (bit_vector); }
+/// protobuf key arithmetic (key = field_number << 3 | wire_type) in the spellings a decoder may use
+pub broadcast proof fn lemma_and7_u64(k: u64)
+    ensures (#[trigger] (k & 0x07u64)) == k % 8
+{ assert((k & 0x07u64) == k % 8u64) by (bit_vector); }
+pub broadcast proof fn lemma_shr3_u64(k: u64)
+    ensures (#[trigger] (k >> 3u64)) == k / 8
+{ assert((k >> 3u64) == k / 8u64) by (bit_vector); }
+pub broadcast proof fn lemma_and7_u32(k: u32)
+    ensures (#[trigger] (k & 0x07u32)) == k % 8
+{ assert((k & 0x07u32) == k % 8u32) by (bit_vector); }
+pub broadcast proof fn lemma_shr3_u32(k: u32)
+    ensures (#[trigger] (k >> 3u32)) == k / 8
+{ assert((k >> 3u32) == k / 8u32) by (bit_vector); }
 // ---- further spellings of the same bit-field facts (false-alarm hardening, see DESIGN section 10)
 pub broadcast proof fn lemma_shr1_u8(h: u8)
     ensures (#[trigger] (h >> 1u8)) == h / 2
@@ -551,7 +564,7 @@ pub broadcast proof fn lemma_and_7f_u8(h: u8)
 pub broadcast proof fn lemma_and_e0_shr5(h: u8)
     ensures (#[trigger] ((h & 0xe0u8) >> 5u8)) == h / 32
 { assert(((h & 0xe0u8) >> 5u8) == h / 32u8) by (bit_vector); }
-pub broadcast group group_bits { lemma_shr1_u8, lemma_shr2_u8, lemma_shr3_u8, lemma_shr4_u8, lemma_shr6_u8, lemma_shr7_u8, lemma_and_01_u8, lemma_and_03_u8, lemma_and_07_u8, lemma_and_3f_u8, lemma_and_7f_u8, lemma_and_e0_shr5, lemma_shl4_u8, lemma_shl4_i32, lemma_or_low_nibble, lemma_and_0f, lemma_and_f0, lemma_and_1f, lemma_and_e0,
+pub broadcast group group_bits { lemma_and7_u64, lemma_shr3_u64, lemma_and7_u32, lemma_shr3_u32, lemma_shr1_u8, lemma_shr2_u8, lemma_shr3_u8, lemma_shr4_u8, lemma_shr6_u8, lemma_shr7_u8, lemma_and_01_u8, lemma_and_03_u8, lemma_and_07_u8, lemma_and_3f_u8, lemma_and_7f_u8, lemma_and_e0_shr5, lemma_shl4_u8, lemma_shl4_i32, lemma_or_low_nibble, lemma_and_0f, lemma_and_f0, lemma_and_1f, lemma_and_e0,
     lemma_shr5, lemma_shl5, lemma_or_low5, lemma_and_msb }
 /// core: `impl<T> From<T> for Option<T>` and `impl<T> From<T> for T` (A5, assumed)
 pub broadcast axiom fn axiom_into_option<T>(x: T)
